@@ -709,20 +709,29 @@ class Sim:
             running_state.append("screening_iterations", int(base) % 997)
         return [dt_used] + out
 
-    # --------------------------------------------------------------------------- run
-    def construct(self):
-        """Build device, drives, options and the solver. Returns solver or None (rejected)."""
+    def _prepare_device(self):
+        """Device and its life cycle (built before the simulated environment is installed: what happened
+        to the Device object earlier belongs to the scenario's past, not to the run under observation)."""
         import tdgl
 
         scn = self.scn
         h = self.h
         dev_spec = scn["device"]
         device = B.build_device(dev_spec, mesh_from=self.mesh_from, history=scn.get("device_history"))
+        used = scn.get("device_used_before") or scn.get("env", {}).get("device_used_before")
+        if used:
+            # device life cycle: this very Device object was already simulated on (another field, a few
+            # steps) before the run under test - and before it is moved / saved / copied
+            device = device.copy(with_mesh=True)
+            self._prior_use(device, used)
+            h.probe("device_used_before")
         mv = scn.get("device_moved")
         if mv:
             # device life cycle: the meshed device is translated in place before it is used (the cached
-            # object is never touched: work on a copy that keeps the mesh)
-            device = device.copy(with_mesh=True)
+            # object is never touched: work on a copy that keeps the mesh; a device that was used before
+            # is already a private object, and it is that very object which is moved)
+            if not used:
+                device = device.copy(with_mesh=True)
             xi_ = dev_spec["layer"]["xi"]
             device.translate(mv["dx"] * xi_, mv["dy"] * xi_, inplace=True)
             h.probe("device_moved")
@@ -767,6 +776,40 @@ class Sim:
                     raise Discard(f"mesh: {type(e).__name__}: {str(e)[:80]}")
                 device = new_dev
             h.probe("device_derived")
+        return device
+
+    def _prior_use(self, device, used):
+        import tdgl
+
+        o = self.scn["options"]
+        dt = 0.01
+        opts = tdgl.SolverOptions(
+            solve_time=dt * int(used.get("steps", 3)),
+            dt_init=dt,
+            adaptive=False,
+            save_every=100,
+            progress_interval=1000000,
+            field_units=o.get("field_units", "mT"),
+            current_units=o.get("current_units", "uA"),
+            include_screening=bool(used.get("screening", False)),
+            terminal_psi=(None if used.get("terminal_psi") == "none" else 0.0),
+        )
+        try:
+            tdgl.TDGLSolver(device, opts, applied_vector_potential=float(used.get("B", 0.1))).solve()
+        except RuntimeError:
+            pass  # an earlier run that failed to converge is history too
+
+    # --------------------------------------------------------------------------- run
+    def construct(self):
+        """Build device, drives, options and the solver. Returns solver or None (rejected)."""
+        import tdgl
+
+        scn = self.scn
+        h = self.h
+        dev_spec = scn["device"]
+        if self._device_error is not None:
+            raise self._device_error
+        device = self._device
         h.device = device
         if device.terminals and not scn.get("allow_empty_terminal"):
             for ti in device.terminal_info():
@@ -909,6 +952,16 @@ class Sim:
         old_threads = numba.get_num_threads()
         if threads:
             numba.set_num_threads(min(threads, numba.config.NUMBA_NUM_THREADS))
+        self._device = None
+        self._device_error = None
+        try:
+            self._device = self._prepare_device()
+        except (Discard, HarnessError):
+            os.chdir(old_cwd)
+            numba.set_num_threads(old_threads)
+            raise
+        except BaseException as e:  # an ill-posed device definition: reported where the solver is constructed
+            self._device_error = e
         self._install_env()
         h.fs_before = listing(self.root)
         h.h5_open_before = h5_open_count()
